@@ -1,4 +1,5 @@
 pub mod c01;
+pub mod c17;
 
 use crate::runner::{drive, replay, Tier};
 use std::path::Path;
@@ -15,6 +16,7 @@ pub fn dispatch(id: &str, tier: Tier, replay_file: Option<&Path>) -> i32 {
     }
     match id {
         "C01" => go!(c01),
+        "C17" => go!(c17),
         _ => {
             eprintln!("unknown property {id}");
             2
